@@ -72,3 +72,28 @@ def histories(check, vh, name, args, full, timeout=7200):
     check.coverage.setdefault("panics_injected", 0)
     check.coverage["panics_injected"] += meta.get("panics_injected", 0)
     return meta
+
+
+RF_CFG = """SPECIFICATION Spec
+CONSTANTS
+  NAlt = %d
+  MaxRes = %d
+  ReadAfterMerge = %s
+INVARIANTS NoDup NoUseAfter NoLeak
+CHECK_DEADLOCK FALSE
+"""
+
+
+def resultflow(check, nalt=3):
+    """ResultFlow.tla: the result life-cycle of the composition validator, every outcome of every alternative."""
+    wd = common.workdir("%s-resultflow" % check.prop)
+    r = common.tlc(wd, "ResultFlow", RF_CFG % (nalt, 4 * nalt + 4, "FALSE"), timeout=1800, workers=4)
+    if r["timeout"] or r["violated"] or r["error"]:
+        raise Inconclusive("ResultFlow.tla (code ordering): %s\n%s" % (r["violated"] or r["error"] or "timeout", r["out"][-1500:]))
+    check.add_tlc(r)
+    check.coverage.setdefault("exhaustive_models", {})["resultflow-%dalt" % nalt] = dict(distinct_states=r["distinct"], transitions=r["states"], depth=r["depth"])
+    wd = common.workdir("%s-resultflow-defect" % check.prop)
+    r = common.tlc(wd, "ResultFlow", RF_CFG % (nalt, 4 * nalt + 4, "TRUE"), timeout=1800, workers=4)
+    if r["violated"] != "NoUseAfter":
+        raise Inconclusive("ResultFlow.tla with ReadAfterMerge was expected to violate NoUseAfter: the model lost its bite")
+    check.coverage.setdefault("model_counterexamples_reproduced", []).append("resultflow: NoUseAfter violated when validity is read after the merge, as expected")
